@@ -170,7 +170,8 @@ impl Pca<f64> {
 
     /// Return the normalized amount of explained variance per element
     pub fn explained_variance_ratio(&self) -> Array1<f64> {
-        let ex_var = self.sigma.mapv(|x| x * x / (self.sigma.len() as f64 - 1.0));
+        // the common factor 1 / (n - 1) of the explained variances cancels in the ratio
+        let ex_var = self.sigma.mapv(|x| x * x);
         let sum_ex_var = ex_var.sum();
 
         ex_var / sum_ex_var
